@@ -226,14 +226,16 @@ class Ctx:
               f"known={sum(self.known_hits.values())} " +
               " ".join(f"{k}={v}" for k, v in cov.items()
                        if isinstance(v, (int, bool))))
-        if self.harness_errors:
-            for m in self.harness_errors[:20]:
-                print(f"HARNESS-ERROR {m}")
-            return 2
+        for m in self.harness_errors[:20]:
+            print(f"HARNESS-ERROR {m}")
         if not ok_schema:
             print("HARNESS-ERROR evidence file does not validate")
+        if self.violations:
+            return 1  # a found violation is reported even if something
+            # else of the run was cut short
+        if self.harness_errors or not ok_schema:
             return 2
-        return 1 if self.violations else 0
+        return 0
 
 
 def validate_evidence(path: Path) -> bool:
